@@ -15,8 +15,8 @@ def mainSkeleton : List Stmt := [
     .rangeGenerated [
       .call .mkdirAll,
       .ifErrReturn,
-      .call (.other "writeFile(filename, content)"),
+      .call .writeFile,
       .ifErrReturn ],
     .retNil ]
-def writeEffectFns : List String := ["initConfig", "readConfigGenerateAndWrite", "writeFile"]
+def writeEffectFns : List String := ["initConfig", "readConfigGenerateAndWrite"]
 end Genq.Extracted
